@@ -66,6 +66,12 @@ pub fn c01(g: &mut G) {
         g.emit("stream always - -".into());
         g.emit("verify".into());
     }
+    // sizes the model cannot afford (implementation against an independent oracle, in a child process)
+    g.emit("!scale bigfile set 17".into());
+    g.emit(format!("!scale deepkeys{}", if g.thorough { "" } else { " quick" }));
+    if g.thorough {
+        g.emit("!scale bigfile map 33".into());
+    }
     // large inputs: shipped corpora and long random sets (digest comparison)
     let n = if g.thorough { 100_000 } else { 10_000 };
     let mut keys: Vec<Vec<u8>> = vec![];
@@ -130,6 +136,8 @@ fn probes(g: &mut G, keys: &[Vec<u8>]) -> Vec<Vec<u8>> {
 }
 
 pub fn c02(g: &mut G) {
+    g.emit("!scale bigfile map 17".into());
+    g.emit(format!("!scale deepkeys{}", if g.thorough { "" } else { " quick" }));
     let sets = key_sets(g);
     let stride = if g.thorough { 1 } else { 3 };
     for (i, (label, keys)) in sets.iter().enumerate() {
@@ -170,6 +178,10 @@ fn bound_tokens(bkeys: &[Vec<u8>]) -> (Vec<String>, Vec<String>) {
 }
 
 pub fn c03(g: &mut G) {
+    g.emit(format!("!scale deepkeys{}", if g.thorough { "" } else { " quick" }));
+    if g.thorough {
+        g.emit("!scale bigfile set 17".into());
+    }
     // small scopes with the full bound universe one level deeper than the keys
     let deep = if g.thorough { 4 } else { 3 };
     let u = universe(b"ab", deep - 1);
@@ -216,6 +228,46 @@ pub fn c03(g: &mut G) {
             let l = g.rng.pick(&lo2).clone();
             let h = g.rng.pick(&hi2).clone();
             g.emit(format!("stream always {} {}", l, h));
+        }
+    }
+    // long keys and long bounds: bounds that are keys, prefixes cut at 63..129 bytes, and keys
+    // with one byte changed early or late (two bounds sharing their first 64 / 128 bytes)
+    for (label, keys) in key_sets(g).iter().filter(|(l, _)| l.starts_with("long")) {
+        let kv = values(keys, 1, &mut g.rng);
+        g.emit(format!("# set {}", label));
+        g.emit(build_line("map", 0, "default", "seq", &ins_calls(&kv)));
+        let mut bs: Vec<Vec<u8>> = vec![];
+        for k in keys.iter().step_by(if g.thorough { 1 } else { 3 }) {
+            bs.push(k.clone());
+            for cut in [63usize, 64, 65, 127, 128, 129] {
+                if k.len() > cut {
+                    bs.push(k[..cut].to_vec());
+                }
+            }
+            let mut x = k.clone();
+            let m = x.len() - 1;
+            x[m] = x[m].wrapping_add(1);
+            bs.push(x);
+            if k.len() > 70 {
+                let mut y = k.clone();
+                y[66] = b'0';
+                bs.push(y);
+            }
+        }
+        bs.sort();
+        bs.dedup();
+        let big = label.starts_with("long4");
+        let n = if g.thorough { if big { 300 } else { 1500 } } else if big { 30 } else { 250 };
+        for _ in 0..n {
+            let a = g.rng.pick(&bs).clone();
+            let b = g.rng.pick(&bs).clone();
+            let lk = ["ge", "gt"][g.rng.below(2) as usize];
+            let hk = ["le", "lt"][g.rng.below(2) as usize];
+            g.emit(format!("stream always {}:{} {}:{}", lk, hex(&a), hk, hex(&b)));
+        }
+        for b in bs.iter().take(if big { 6 } else { 40 }) {
+            g.emit(format!("stream always ge:{} -", hex(b)));
+            g.emit(format!("stream always - lt:{}", hex(b)));
         }
     }
     // fan-out ladder and random words with bounds around the keys
@@ -300,6 +352,7 @@ pub fn random_dfa(rng: &mut Rng, n: usize, classes: &[u8]) -> Table {
 }
 
 pub fn c04(g: &mut G) {
+    g.emit(format!("!scale deepkeys{}", if g.thorough { "" } else { " quick" }));
     let u = universe(b"ab", 3);
     let bu = universe(b"ab", 3);
     let (lo, hi) = bound_tokens(&bu);
@@ -341,6 +394,31 @@ pub fn c04(g: &mut G) {
             let h = g.rng.pick(&hi).clone();
             g.emit(format!("streamst {} - -", a));
             g.emit(format!("streamst {} {} {}", a, l, h));
+        }
+    }
+    // long keys (several longer than 128 / 4096 bytes that differ early and late): searches with
+    // and without states, with long bounds
+    for (label, keys) in key_sets(g).iter().filter(|(l, _)| l.starts_with("long")) {
+        let kv = values(keys, 2, &mut g.rng);
+        g.emit(format!("# set {}", label));
+        g.emit(build_line("map", 0, "default", "seq", &ins_calls(&kv)));
+        let auts = ["subseq:7a", "subseq:6162", "sw(str:61)", "sw(str:6163)", "co(subseq:7a)", "always", "un(subseq:79,subseq:7a)", "in(sw(str:61),co(subseq:71))"];
+        for a in auts.iter() {
+            g.emit(format!("stream {} - -", a));
+            for _ in 0..(if g.thorough { 12 } else if label.starts_with("long4") { 1 } else { 3 }) {
+                let x = g.rng.pick(keys).clone();
+                let mut y = g.rng.pick(keys).clone();
+                let m = y.len() - 1;
+                y[m] = y[m].wrapping_add(g.rng.below(2) as u8);
+                let cut = [64usize, 128, 129, x.len()][g.rng.below(4) as usize].min(x.len());
+                let (lk, hk) = (["ge", "gt"][g.rng.below(2) as usize], ["le", "lt"][g.rng.below(2) as usize]);
+                g.emit(format!("stream {} {}:{} {}:{}", a, lk, hex(&x[..cut]), hk, hex(&y)));
+            }
+        }
+        for t in dfas.iter().take(if g.thorough { 60 } else { 12 }) {
+            let x = g.rng.pick(keys).clone();
+            g.emit(format!("streamst {} - -", t.spec()));
+            g.emit(format!("streamst {} ge:{} -", t.spec(), hex(&x[..x.len().min(130)])));
         }
     }
     let _ = Call::Add(vec![]);
